@@ -45,6 +45,22 @@ def _bin_consts(fn, blocks=None):
 def _assert_bounds(fn):
     """constants in comparisons that come from assert! expansions: [(op, value)]"""
     out = []
+    # `assert!(x < C)`: the comparison decides a branch whose false side calls a panic function
+    for bi in fn.reachable():
+        t = fn.term(bi)
+        if t["k"] != "switch" or not is_place(t["d"]) or proj(t["d"]):
+            continue
+        d = fn.single_def(t["d"]["l"])
+        if not d or d[2] != "assign" or d[3]["k"] != "bin" or d[3]["op"] not in ("Lt", "Le") or not is_const(d[3]["b"]):
+            continue
+        zero = [tb for val, tb in t["ts"] if val == 0]
+        if not zero:
+            continue
+        tt = fn.term(zero[0])
+        if tt["k"] == "call" and "panic" in (callee_name(tt) or "") and const_val(d[3]["b"]) is not None:
+            out.append((d[3]["op"], const_val(d[3]["b"])))
+    if out:
+        return out
     for bi, si, st in fn.all_rvalues():
         rv = st["rv"]
         if rv["k"] == "bin" and rv["op"] in ("Lt", "Le") and "assert" in st.get("mac", []):
@@ -215,6 +231,21 @@ def rule_codec(prog):
             res.oblige(contiguous)
             if not contiguous:
                 res.viol("ctor/%s/mask/%#x" % (name, m), dec.loc, "decoder mask %#x in the %s arm is not a contiguous bit-field" % (m, exp))
+        # every power-of-two bound the constructor asserts for a field (`assert!(x < 0x400)`) is the width of a field: the
+        # decoder arm must have a mask of exactly that width (plain, or in front of / behind one of its shifts). A narrower
+        # mask silently truncates values the constructor accepts (coordinates >= 512 with `& 0x1FF`).
+        for bop, bval in bounds:
+            lim_ = bval if bop == "Lt" else bval + 1
+            if lim_ <= 1 or lim_ & (lim_ - 1) or not masks:
+                continue          # not a bit-field width / the arm delegates the decoding (BooleanOp -> From<u16>, checked below)
+            want = lim_ - 1
+            has = any(m == want or any((m >> s_) == want and ((m >> s_) << s_) == m for s_ in shr) for m in masks)
+            res.oblige(has)
+            if not has:
+                res.viol("ctor/%s/width/%#x" % (name, lim_), dec.loc,
+                         "%s accepts a field value below %#x, but no mask of the %s arm of opcode_type has that width (masks %s, shifts %s): "
+                         "values the constructor lets through are truncated when the opcode is decoded"
+                         % (name, lim_, exp, [hex(m) for m in masks], shr))
         # each shifted field of width w (from the decoder mask) must hold the encoder's asserted bound
         for s_ in shr:
             cand = [m for m in masks if (m == ((m >> s_) << s_) and m >> s_ > 0 and m >= (1 << s_)) or m < (1 << (16 - s_))]
